@@ -429,11 +429,25 @@ def per_instance_defaults(prog, cls, prefix=''):
         if isinstance(d, (ast.List, ast.Dict, ast.Set)):
             mutable_args.add(arg.arg)
     out = []
+    bound_in_init = set()
     for n in ast.walk(init.node):
         if isinstance(n, ast.Assign):
             for t in n.targets:
                 if isinstance(t, ast.Attribute) and isinstance(t.value, ast.Name) and t.value.id == 'self' and t.attr.startswith(prefix):
                     v = n.value
                     shared = isinstance(v, ast.Name) and (v.id in module_mutables or v.id in mutable_args)
+                    bound_in_init.add(t.attr)
                     out.append((t.attr, '%s:%d' % (mod.rel, n.lineno), not shared, unparse(v)[:60]))
+    # class-level defaults that the constructor does not re-bind: a mutable one is a single object for all instances
+    for c in cls.mro:
+        node = getattr(c, 'node', None)
+        if node is None:
+            continue
+        for st in node.body:
+            if isinstance(st, ast.Assign) and len(st.targets) == 1 and isinstance(st.targets[0], ast.Name) and st.targets[0].id.startswith(prefix) \
+                    and st.targets[0].id not in bound_in_init:
+                v = st.value
+                mutable = isinstance(v, (ast.List, ast.Dict, ast.Set, ast.ListComp, ast.DictComp, ast.SetComp)) or (
+                    isinstance(v, ast.Call) and call_name(v) in ('list', 'dict', 'set'))
+                out.append((st.targets[0].id, '%s:%d' % (c.module.rel, st.lineno), not mutable, 'class-level ' + unparse(v)[:50]))
     return out
